@@ -155,7 +155,8 @@ func determineCompletionContext(content string, pos protocol.Position, ctx *prot
 		return ContextAccount
 	}
 
-	if strings.HasPrefix(line, "    ") || strings.HasPrefix(line, "\t") {
+	// hledger takes any indented line for a posting or comment line, one blank is enough
+	if line[0] == ' ' || line[0] == '\t' {
 		return determinePostingContext(line, pos)
 	}
 
